@@ -46,7 +46,9 @@ class Session:
         ev = self.tw.run_op(op, pres)
         self.prog["ops"].append(op)
         self.prog["pres"].append(pres)
-        self.events.append(ev)
+        evs = ev if isinstance(ev, list) else [ev]
+        self.events.extend(evs)
+        ev = evs[-1]
         self.vol = ev["post"]["vol"]
         if ev["out"] != "ok":
             self.failed = True
